@@ -174,6 +174,22 @@ pub fn eq_asym(a: &V, b: &V) -> bool {
 pub fn eq_par(a: &V, b: &V) -> bool {
     a.0 % 2 == b.0 % 2
 }
+/// method given next to `ignore`: must never be called
+pub fn eq_poison(_: &I, _: &I) -> bool {
+    panic!("POISON: the method of an ignored field was called")
+}
+pub fn hash_poison<H: Hasher>(_: &I, _: &mut H) {
+    panic!("POISON: the method of an ignored field was called")
+}
+pub fn cmp_poison(_: &I, _: &I) -> Ordering {
+    panic!("POISON: the method of an ignored field was called")
+}
+pub fn pcmp_poison(_: &I, _: &I) -> Option<Ordering> {
+    panic!("POISON: the method of an ignored field was called")
+}
+pub fn fmt_poison(_: &ID, _: &mut fmt::Formatter<'_>) -> fmt::Result {
+    panic!("POISON: the method of an ignored field was called")
+}
 /// asymmetric comparison: compares a+1 with b (so cmp_asym(x, x) == Greater)
 pub fn cmp_asym(a: &V, b: &V) -> Ordering {
     (a.0 + 1).cmp(&b.0)
